@@ -11,6 +11,7 @@ import collections
 import json
 import os
 import random
+import re
 
 import common
 import crash
@@ -75,12 +76,14 @@ def run_sessions(o, binary, sessions, mode, tag):
     recs = common.parallel(rec, sessions, nthreads=4)
     lines = []
     plines = []
+    ilines = []
     npoints = 0
     digests = set()
     descs = collections.Counter()
     for ci, ((name, steps), (sess, pts, res)) in enumerate(zip(sessions, recs)):
         lines += crashrun.judge_lines(ci, mode, sess["events"], pts, res)
         plines += crashrun.proto_lines(ci, pts, sess["events"])
+        ilines += crashrun.image_lines(ci, pts, res)
         npoints += len(pts)
         for p in pts:
             digests.add(p.digest)
@@ -110,7 +113,35 @@ def run_sessions(o, binary, sessions, mode, tag):
         o.report("proto/%s" % b["clause"], "session %s: syscall is not an enabled step of the disk protocol (%s): %s" % (name, b["clause"], b.get("ev", "")[:400]),
                  {"session": name, "steps": steps, "mode": mode})
     o.extra["protocol_steps_conforming"] = o.extra.get("protocol_steps_conforming", 0) + (pnok or 0)
-    return npoints, len(digests), descs, nok, len(bad) + len(pbad)
+    # content level: the specification's RecMap / OpenFails evaluated on the decoded image = what the real recovery made of it
+    ibad = judge_images(o, ilines, sessions, mode, tag)
+    return npoints, len(digests), descs, nok, len(bad) + len(pbad) + ibad
+
+
+def judge_images(o, ilines, sessions, mode, tag):
+    ip = os.path.join(common.scratch("cj-" + tag), "images.ndjson")
+    common.write_ndjson(ip, ilines)
+    inok, ibad, ir = judge.judge_trace("DiskImageTrace.tla", "DiskImageTrace.cfg", ip, o, "decoded images vs RecMap " + tag, heap="4g")
+    seen = set()
+    # an image the abstraction function has no place for (a file or stage SimpleDBDisk.tla does not know) is no verdict about the
+    # property: it is left to the other judges and counted; if that becomes the rule the abstraction is out of date (exit 2)
+    nodec = [b for b in ibad if b["clause"] == "image-not-decodable"]
+    ibad = [b for b in ibad if b["clause"] != "image-not-decodable"]
+    o.extra["images_not_decodable"] = o.extra.get("images_not_decodable", 0) + len(nodec)
+    if len(nodec) * 4 > max(1, len(ilines)):
+        o.problem("%d of %d images are not decodable into SimpleDBDisk.tla's disk state (e.g. %s)" % (len(nodec), len(ilines), nodec[0].get("err")))
+    for b in ibad:
+        case = b.get("case", -1)
+        name, steps = sessions[case] if 0 <= case < len(sessions) else ("?", None)
+        sig = "image/%s/%s" % (re.sub(r" removed=.*", "", crash.normalize_desc(b.get("desc", ""))), b["clause"])
+        if sig in seen:
+            continue
+        seen.add(sig)
+        o.report(sig, "session %s crash point %s after '%s': %s; real recovery %s (error %s), specification RecMap %s" % (
+            name, b.get("idx"), b.get("desc"), b["clause"], b.get("m"), b.get("err", "")[:200], b.get("spec")),
+            {"session": name, "steps": steps, "idx": b.get("idx"), "mode": mode})
+    o.extra["images_equal_to_spec_RecMap"] = o.extra.get("images_equal_to_spec_RecMap", 0) + (inok or 0)
+    return len(ibad)
 
 
 def run(tier, pid=PID, mode="sync"):
